@@ -89,6 +89,24 @@ def run():
         if j < 0 or "Style::default_styles()" not in src[j:j + 900]:
             raise RuntimeError(f"translate/linetables: build_styles_list of {f} no longer starts from Style::default_styles()")
     meta, meta_src = regex_meta()
+    # two behavioural switches that proposed repairs flip (the model follows the source):
+    #  * does an all-excluded style selection reach the scanner as an empty list (`Some(vec![])`) instead of `None`?
+    flags = []
+    for f in ("operations/plan.rs", "operations/rename.rs"):
+        src = open(os.path.join(repo, "renamify-core/src", f)).read()
+        m2 = re.search(r"let styles\s*=(.*?);", src, re.S)
+        if not m2 or "build_styles_list(" not in m2.group(1):
+            raise RuntimeError(f"translate/linetables: call site of build_styles_list not found in {f}")
+        flags.append(".unwrap_or_default()" in m2.group(1) or "unwrap_or_else(Vec::new)" in m2.group(1))
+    if flags[0] != flags[1]:
+        raise RuntimeError("translate/linetables: plan.rs and rename.rs treat an all-excluded style selection differently")
+    exclude_all_empty = flags[0]
+    #  * does `skip_exact_match` also require the typed search term to tokenize to a single word?
+    cs = open(os.path.join(repo, "renamify-core/src/compound_scanner.rs")).read()
+    m3 = re.search(r"let is_single_word_search\s*=(.*?);", cs, re.S)
+    if not m3 or "let skip_exact_match = is_single_word_search && is_single_style_search;" not in cs:
+        raise RuntimeError("translate/linetables: skip_exact_match of find_enhanced_matches not found")
+    skip_uses_tokens = "parse_to_tokens(search)" in m3.group(1)
 
     def arm(s):
         case, sep = table[s]
@@ -107,6 +125,10 @@ def run():
             f"def planHeaderDefaultStyles : List Style := {lst(hd5)}",
             f"/-- bytes `regex::escape` escapes ({meta_src}) -/",
             f"def regexMeta : List UInt8 := [{', '.join(str(b) for b in meta)}]",
+            "/-- operations/{plan,rename}.rs hand the scanner `Some(vec![])` (not `None`) when every style is excluded -/",
+            f"def excludeAllYieldsEmpty : Bool := {'true' if exclude_all_empty else 'false'}",
+            "/-- compound_scanner.rs: the `single word search` test also requires the typed term to tokenize to one word -/",
+            f"def skipExactUsesTokens : Bool := {'true' if skip_uses_tokens else 'false'}",
             "", "end Gen", ""]
     path = os.path.join(common.LEAN, "RModel/Gen/LineTables.lean")
     return [("Gen/LineTables.lean", common.write_if_changed(path, "\n".join(out)))]
